@@ -163,6 +163,19 @@ Proof.
   unfold run_handle_on. apply (C15_checked_predicate b [] [] _).
 Qed.
 
+(* identifiers are never stepped back: the n-th identifier handed out depends on the start value
+   and on n only — [issued s n] — whatever happens to the requests in between (acknowledged,
+   abandoned, write rejected); dropping all end-of-request events from a history changes neither
+   the identifiers nor the counter. The fault-injection family leans on this. *)
+Theorem C15_never_stepped_back : forall s h,
+  auto_ids (run_seq s h) = auto_ids (run_seq s (filter is_hreq h)) /\
+  final_counter s h = final_counter s (filter is_hreq h) /\
+  auto_ids (run_seq s h) = issued_list s 0 (length (auto_ids (run_seq s h))).
+Proof.
+  intros s h. destruct (ids_ignore_ends s h) as [H1 H2].
+  split; [exact H1|]. split; [exact H2 | apply run_seq_canonical].
+Qed.
+
 Print Assumptions C15_nonzero.
 Print Assumptions C15_nonzero_seq.
 Print Assumptions C15_one_retry.
@@ -177,6 +190,7 @@ Print Assumptions C15_wrap.
 Print Assumptions C15_caller_id_kept.
 Print Assumptions C15_caller_id_kept_retry.
 Print Assumptions C15_retry_handle_target.
+Print Assumptions C15_never_stepped_back.
 Print Assumptions C15_strict_refuted.
 Print Assumptions C15_reuse_period.
 Print Assumptions C15_checked_predicate.
